@@ -202,6 +202,12 @@ def run(case):
         _dup = _TL(_segs[::-1] + _segs[:2] + _segs, uri=t.uri)
         assert _dup == t and len(_dup) == len(t), "a timeline built from repeated segments differs from the plain one"
         assert _lines(_dup.to_uem) == out["uem"], "to_uem prints repeated constructor input more than once"
+        _mrg = _TL(_segs[:len(_segs) // 2 + 1], uri=t.uri)
+        _mrg.update(_TL(_segs[len(_segs) // 2:]))        # the two operands share a segment
+        _mrg |= t
+        _mrg.update(_mrg)
+        assert _mrg == t and len(_mrg) == len(t) and list(_mrg) == _segs, "a timeline merged in place from overlapping parts differs from the plain one"
+        assert _lines(_mrg.to_uem) == out["uem"], "to_uem prints a segment shared by the operands of an in-place merge more than once"
         out["strs"] = [str(tb.S(x[0])) for x in case["a"]]
         out["strs_ms"] = [_parse_seg_str(x) for x in out["strs"]]
         return out
